@@ -209,8 +209,9 @@ struct Explorer {
             return;
         }
         Index &idx = *idxp;
-        bool can_count = true;   // CompressedPGMIndex::segments_count() needs a stored level (checked under C17)
-        if constexpr (is_compressed<Index>::value) can_count = !idx.levels.empty();
+        bool can_count = true;   // CompressedPGMIndex::segments_count() needs a stored level; C17 calls the accessors unguarded
+        if constexpr (is_compressed<Index>::value) can_count = !idx.levels.empty() || prop == P_C17;
+        if (prop == P_C17) { run.set_case(case_of(data_desc, "(accessors)")); volatile size_t sink = idx.size_in_bytes() + idx.height(); (void) sink; }
         if (can_count && idx.segments_count() >= 2) run.add(cn.multiseg);
         if (idx.height() >= 3) run.add(cn.multilevel);
         if (prop == P_C07) check_level_sizes(idx, data_desc, verif::chunks);
